@@ -53,6 +53,7 @@ var c04Refs = map[string]bool{
 	"holder": true, "sender": true, "receiver": true, "from_": true, "erc20Contract": true, "pair_GetERC20Contract": true,
 	"bridgeToken": true, "coin": true, "targetCoin": true, "baseCoin": true, "ibcCoin": true, "addBridgeFee": true, "coins": true,
 	"mintCoins": true, "unlockCoins": true, "erc20types_ModuleName": true, "tokenPair_GetERC20Contract": true, "amount": true,
+	"crosschaintypes_GetAddress": true, "evmtypes_ModuleName": true, "totalCoins": true,
 }
 
 var c04Space = regexp.MustCompile(`\s+`)
@@ -255,9 +256,11 @@ func extractC04(c *ctxT) {
 			{"precompileConvertERC20_fx", []string{"+tokenPair.IsNativeCoin()", "+tokenPair.GetDenom() == fxtypes.DefaultDenom"}},
 			{"precompileConvertERC20_nativeCoin", []string{"+tokenPair.IsNativeCoin()", "-tokenPair.GetDenom() == fxtypes.DefaultDenom"}},
 			{"precompileConvertERC20_nativeERC20", []string{"-tokenPair.IsNativeCoin()", "+tokenPair.IsNativeERC20()"}}}},
+		// precompile entry with msg.value: the origin coin goes precompile account -> evm module -> sender
+		{"x/crosschain/precompile", "Keeper", "handlerOriginToken", []c04Want{{"handlerOriginToken", nil}}},
 	}
 	var sb strings.Builder
-	sb.WriteString("import FxVerif.Model.C04\nnamespace FxVerif.Gen.C04\nopen FxVerif.Model.Flows (Call)\nopen FxVerif.Model.C04 (BStep BGuard BExit RStep RGuard RExit Cmp CancelRule XStep Sig Ref FCall)\n\n")
+	sb.WriteString("import FxVerif.Model.C04Handler\nnamespace FxVerif.Gen.C04\nopen FxVerif.Model.Flows (Call)\nopen FxVerif.Model.C04 (BStep BGuard BExit RStep RGuard RExit Cmp CancelRule XStep Sig Ref FCall HStep HRef RfStep TStep CancelArg MintGuard)\n\n")
 	facts := map[string]any{}
 	for _, f := range fns {
 		fd := c.findFunc(f.pkg, f.recv, f.name)
@@ -333,6 +336,7 @@ func extractC04(c *ctxT) {
 	c04Compose(c, &sb)
 	c04Batch(c, &sb)
 	c04ExecuteClaim(c, &sb)
+	c04Handler(c, &sb)
 	sb.WriteString("end FxVerif.Gen.C04\n")
 	c.write("C04.lean", sb.String())
 	c.facts["C04.paths"] = facts
@@ -540,6 +544,28 @@ func c04Batch(c *ctxT, sb *strings.Builder) {
 		sb.WriteString("/-- guard of the cancel loop of `OutgoingTxBatchExecuted` — " + strings.ReplaceAll(where, "-/", "- /") + " -/\n")
 		sb.WriteString("def executedCancelRule : CancelRule := ⟨." + cmp + ", " + leanBool(same) + "⟩\n\n")
 		c.facts["C04.executedCancelRule"] = []any{cmp, same}
+		// WHICH batch the loop cancels: the nonce argument of CancelOutgoingTxBatch inside the loop (the iterated batch's / the
+		// executed batch's)
+		carg, cwhere := "unknown", "(no CancelOutgoingTxBatch call found)"
+		if fd := c.findFunc(keeper, "Keeper", "OutgoingTxBatchExecuted"); fd != nil && fd.Body != nil {
+			if ce := c04FindCall(fd.Body, "CancelOutgoingTxBatch"); ce != nil && len(ce.Args) >= 3 {
+				a := squash(c.src(ce.Args[2]))
+				switch {
+				case a == "batch.BatchNonce" || a == "batchNonce":
+					carg = "executed"
+				case regexp.MustCompile(`^\w+\.BatchNonce$`).MatchString(a):
+					carg = "iter"
+				}
+				tok := squash(c.src(ce.Args[1]))
+				if tok != "tokenContract" && tok != "batch.TokenContract" && !regexp.MustCompile(`^\w+\.TokenContract$`).MatchString(tok) {
+					carg = "unknown"
+				}
+				cwhere = c.pos(ce) + ": " + c.src(ce)
+			}
+		}
+		sb.WriteString("/-- the batch the cancel loop of `OutgoingTxBatchExecuted` cancels — " + strings.ReplaceAll(cwhere, "-/", "- /") + " -/\n")
+		sb.WriteString("def executedCancelArg : CancelArg := ." + carg + "\n\n")
+		c.facts["C04.executedCancelArg"] = carg
 	}
 	// ---- Solidity: submitBatch's nonce rule, per bridge-logic file ----
 	{
